@@ -450,6 +450,10 @@ int read_fasta( struct in_buffer* b,struct msa** m)
 
                 }else{
                         for(i = 0;i < line_len;i++){
+                                if((unsigned char)line[i] > 127){
+                                        /* not ASCII: neither a residue nor a gap symbol */
+                                        continue;
+                                }
                                 msa->letter_freq[(int)line[i]]++;
                                 if(isalpha((int)line[i])){
                                         if(!seq_ptr){
@@ -533,6 +537,10 @@ int read_clu(struct in_buffer* b , struct msa** m)
                                 }
                                 seq_ptr->name[j] = 0;
                                 for(i = j;i < line_len;i++){
+                                        if((unsigned char)p[i] > 127){
+                                                /* not ASCII: neither a residue nor a gap symbol */
+                                                continue;
+                                        }
                                         msa->letter_freq[(int)p[i]]++;
                                         if(isalpha((int)p[i])){
                                                 seq_ptr->seq[seq_ptr->len] = p[i];
@@ -630,6 +638,10 @@ int read_msf(struct in_buffer* b,struct msa** m)
                                 j = strnlen(seq_ptr->name, MSA_NAME_LEN);
                                 p += j;
                                 for(i = 0;i < line_len-j;i++){
+                                        if((unsigned char)p[i] > 127){
+                                                /* not ASCII: neither a residue nor a gap symbol */
+                                                continue;
+                                        }
                                         msa->letter_freq[(int)p[i]]++;
                                         if(isalpha((int)p[i])){
 
